@@ -350,15 +350,19 @@ package sqlite
 // pragma in the connection string weakens journalling or synchronisation (C06: what was acknowledged
 // survives a kill only because the engine's defaults are left alone).
 //@ func New
-//@ props C06 C16
+//@ props C06 C16 C01 C02 C03 C04 C05 C07 C08 C09 C10 C20
 //@ nopanic C13
 //@ requires config != nil
 //@ site call Open assert driverName == "sqlite3" && dataSourceName == config.Path
 
 // Graceful shutdown deletes the stored data only when the operator asked for it (C06).
 //@ func (*SqliteStore).Stop
-//@ props C06
+//@ props C06 C01 C02 C03 C04 C05 C07 C08 C09 C10 C20
 //@ nopanic C13
+// Stop itself deletes nothing and drops nothing: only Reset does, and only when configured
+//@ site call Remove assert false
+//@ site call RemoveAll assert false
+//@ site call Exec assert false
 //@ requires s != nil && s.config != nil && s.db != nil && s.sq != nil && !closed(s.sq)
 //@ site call Reset assert s.config.Reset
 
@@ -389,3 +393,16 @@ package sqlite
 //@ site loop 2 call EnqueueCQE assert arg0 == cqe
 //@ site loop 2 backedge assert itercalls("EnqueueCQE") == 1
 //@ site return assert !ok
+
+// Start-up creates the schema if it is not there and deletes nothing (every property about stored data: what was
+// acknowledged before a stop or a kill is what the next start finds - including the engine's own recovery
+// files next to the database).
+//@ func (*SqliteStore).Start
+//@ props C06 C01 C02 C03 C04 C05 C07 C08 C09 C10 C20
+//@ abstract-calls .*
+//@ requires s != nil && s.db != nil
+//@ site call Remove assert false
+//@ site call RemoveAll assert false
+//@ site call Truncate assert false
+//@ site call Reset assert false
+//@ site call Exec assert db == s.db && query == CREATE_TABLE_STATEMENT
